@@ -17,6 +17,10 @@ def seq_equal(a, b):
 
 
 def cell_equal(x, y):
+    if isinstance(x, tuple) and x[0] == "ic":
+        return _ite_formula(x[1], cell_equal(x[2], y), cell_equal(x[3], y))
+    if isinstance(y, tuple) and y[0] == "ic":
+        return _ite_formula(y[1], cell_equal(x, y[2]), cell_equal(x, y[3]))
     if isinstance(x, tuple) or isinstance(y, tuple):
         if not (isinstance(x, tuple) and isinstance(y, tuple)):
             return False
@@ -35,10 +39,23 @@ def cell_equal(x, y):
 _MEMO = {}
 
 
+def _ite_formula(c, a, b):
+    if a is True and b is True:
+        return True
+    if a is False and b is False:
+        return False
+    from .values import b_term
+    return simp_bool(z3.If(c, b_term(a), b_term(b)))
+
+
 def val_equal(u, v):
     """u, v: structural values: ('sym', name) | ('chal', digestseq) | ('digest', seq)"""
     if u is v:
         return True
+    if u[0] == "ite":
+        return _ite_formula(u[1], val_equal(u[2], v), val_equal(u[3], v))
+    if v[0] == "ite":
+        return _ite_formula(v[1], val_equal(u, v[2]), val_equal(u, v[3]))
     if u[0] != v[0]:
         return False
     if u[0] in ("sym",):
@@ -94,9 +111,9 @@ class TDom:
         return TVal(("sym", "0"), self)
 
     def ite(self, c, a, b):
-        if val_equal(a.v, b.v) is True:
+        if a is b or a.v is b.v or (a.v[0] == "sym" and b.v[0] == "sym" and a.v[1] == b.v[1]):
             return a
-        raise Unsupported("merge of transcript values")
+        return TVal(("ite", c, a.v, b.v), self)
 
     def same(self, ex, a, b):
         return val_equal(a.v, b.v)
